@@ -1091,4 +1091,26 @@ theorem unapplyParts_length (segs : List Seg) (parts : List Bytes) (acc r : KV)
             · exact hnd.1)
           rw [this]; simp; omega
 
+/-! ### pattern text of a pattern value (used by the open parse/render statements) -/
+
+def Seg.text : Seg → Bytes
+  | .lit l => l
+  | .param n => 58 :: n
+
+/-- The pattern text of a pattern value. -/
+def Pat.render (p : Pat) : Bytes := schemePrefix p.scheme ++ joinParts p.absolute true (p.segs.map Seg.text)
+
+def Seg.noColonStart : Seg → Bool
+  | .lit (58 :: _) => false
+  | _ => true
+
+def patSchemeOk : Option Bytes → Bool
+  | none => true
+  | some [] => false
+  | some (b :: tl) => isAlpha b && !tl.contains 58 && !tl.contains 47
+
+def Pat.renderable (p : Pat) : Bool :=
+  p.structOk && p.segs.all Seg.noColonStart && patSchemeOk p.scheme &&
+    (if p.segs.isEmpty then p.scheme.isSome && !p.absolute else true)
+
 end SwimVerif.Route
